@@ -64,6 +64,15 @@ fn case_format(kind: u8, day: i64, nod: u64, off: i32, pattern: &str, acc: &mut 
             acc.violation(&format!("{}::format", ["Date", "Time", "DateTime"][kind as usize]), &format!("symbol-{}-{}", first, if day < 0 && kind != 1 { "bc" } else { "ad" }), json!({"kind": kind, "day": day, "nod": nod.to_string(), "off": off, "pattern": pattern}), want, other.show());
         }
     }
+    // purity probe: one anchor format of the same type after every 8th case (chosen by a hash of the case), the full text anchor after every 512th
+    let pred = || json!({"kind": kind, "day": day, "nod": nod.to_string(), "off": off, "pattern": pattern});
+    let h = (day as u64).wrapping_mul(31) ^ nod ^ (pattern.len() as u64).wrapping_mul(0x9E37) ^ pattern.bytes().fold(0u64, |a, b| a.wrapping_mul(131).wrapping_add(b as u64));
+    if h % 8 == 0 {
+        crate::props::anchor::format_light(kind, acc, "format (purity probe)", &pred);
+    }
+    if h % 512 == 0 {
+        crate::props::anchor::text(acc, "format (purity probe)", &pred);
+    }
 }
 
 pub fn piece_alphabet(kind: u8) -> Vec<String> {
